@@ -46,7 +46,9 @@ prop("C07",
      rule=_C01_RULE.replace("str/ustr", "mbuff").replace("I1/I2", "size>=len, allocation>=size"),
      bounds={"quick": "sigma={0x00,a,space} L=3 fixpoint; fd ctor k=4 dev<=2", "thorough": "sigma={0x00,a,space,0xFF} L=5 fixpoint; fd ctor k=6 dev<=2"},
      runs=[dict(name="h_mbuff", sources=["harness/h_mbuff.c"], profile="asan", wraps=["read"],
-                args={"quick": ["--L=3", "--sigma=3"], "thorough": ["--L=5", "--sigma=4"]})],
+                args={"quick": ["--L=3", "--sigma=3"], "thorough": ["--L=5", "--sigma=4"]}),
+           # plain -O2 build: buffers whose lengths are 2^31 and more apart (the big block is calloc'ed and never touched)
+           dict(name="h_mbuff_huge", sources=["harness/h_mbuff.c"], profile="plain2", wraps=["read"], args={"quick": ["--only=huge", "--workers=2"], "thorough": ["--only=huge", "--workers=2"]})],
      deadline={"quick": 200, "thorough": 3000})
 
 
@@ -193,7 +195,7 @@ prop("C19",
      deadline={"quick": 240, "thorough": 3000})
 
 
-_MW = ["malloc", "calloc", "realloc", "free"]
+_MW = ["malloc", "calloc", "realloc", "free", "XCreateGC", "XFreeGC", "XCreatePixmap", "XFreePixmap"]      # Xlib is replaced by stubs in the tracker harness
 prop("C15",
      level="model_checking",
      technique="explicit-state BFS over tracked allocation histories through the real MALLOC/CALLOC/REALLOC/STRDUP/FREE macros vs a dictionary model of the tracker table (mem.c compiled into the harness TU); allocator interposed to choose realloc moves/stays",
@@ -278,7 +280,7 @@ prop("C20",
      rule="for each build DEBUG in {undefined,0,1,2,3,4,5,9999} the probe program and the library are compiled with that DEBUG; every (macro probe x runtime level in {0..6,9999}) cell and every (output primitive x level x silent) cell runs in a child: "
           "bytes written to stderr, side-effect counters in the macro arguments/conditions, the return value, whether the function continued and the exit status must match the gate model; a condition whose text holds \"100%%\" keeps both percent signs in the diagnostic; thorough adds one real in-library statement per D_* family; "
           "non-trivial = every executed cell",
-     bounds={"quick": "10 builds x 33 probes x 10 levels (0..6, 9999, 0x80000000, 0xffffffff) x silent {off,TRUE,0x100} x history {fresh process, after four refused output calls}", "thorough": "same + 4 in-library statements per build"},
+     bounds={"quick": "10 builds x 35 probes x 10 levels (0..6, 9999, 0x80000000, 0xffffffff) x silent {off,TRUE,0x100} x history {fresh process, after four refused output calls}", "thorough": "same + 4 in-library statements per build"},
      runs=[dict(name="h_gate_" + b, sources=["harness/h_gate.c"], profile=b, args={"quick": ["--build=" + b], "thorough": ["--build=" + b]}) for b in _GATE_BUILDS],
      deadline={"quick": 300, "thorough": 1200})
 
